@@ -155,6 +155,11 @@ def run(ctx):
             ctx.violation(f"{s['file']}:{s['line']} ({s['func']}, {s['api']}) {what}", {"leg": "T-sites", "site": s})
         if not bad:
             raise tlc.MachineryFailure(f"Warnings: TLC reports {r.violated} but no offending site was found")
+        # TLC stops at a false constant-level invariant: run the loop part again without the two site clauses
+        r = tlc.run("Warnings", tlc.cfg(ctx, "w_mc_b.cfg", consts, invariants=["LoopCorrect", "OperatorForm", "Emit"],
+                                        properties=["Terminates"]), wd=ctx.wd, timeout=3000, defs=defs)
+        tlc.expect_holds(r, "Warnings loop M |= S")
+        ctx.add_tlc("Warnings_loop", r)
     elif r.violated:
         raise tlc.MachineryFailure(f"Warnings M |= S: {r.violated}\n{r.trace[:1500]}")
     for f in findings.values():
